@@ -38,7 +38,7 @@ func header(r *rand.Rand, slash float64) string {
 			accts = append(accts, fmt.Sprintf("%d=%d", id, 100000*coin))
 		}
 	}
-	return fmt.Sprintf("init 1 %s %d %s %s", hexF(slash), spw.MinLockSeconds, spw.OrderString(), strings.Join(accts, ","))
+	return fmt.Sprintf("init 1 %s %d %s %s %d", hexF(slash), spw.MinLockSeconds, spw.OrderString(), strings.Join(accts, ","), coin)
 }
 
 func gen(r *rand.Rand, thorough bool, i int) []string {
